@@ -22,8 +22,7 @@ def selections(n):
 
 
 SEL3_SOME = [[0, 1], [1, 0], [1, 2], [2, 0], [0, 1, 2], [2, 0, 1]]
-SEL4_SOME = [[0, 1], [1, 0], [2, 3], [3, 1], [0, 3], [1, 2, 3], [0, 2, 3], [3, 0, 2], [2, 1, 0],
-             [0, 1, 2, 3], [3, 2, 1, 0], [1, 3, 0, 2]]
+SEL4_SOME = [[1, 0], [2, 3], [3, 1], [1, 2, 3], [3, 0, 2], [2, 1, 0], [0, 1, 2, 3], [1, 3, 0, 2]]
 
 KW_FULL = [{}, {"MRTS": 2 * U}, {"RI": True, "MRTS": 1.5 * U}, {"max_tau": U, "MRTS": 6 * U},
            {"interval": "mid"}, {"MRTS": "auto"}, {"interval": "late", "max_tau": U},
@@ -59,7 +58,7 @@ def measures():
 
 def plan(tier):
     if tier == "quick":
-        specs = [(3, [("dense", 1, 2)], "all", KW_FULL[2:], True),
+        specs = [(3, [("dense", 1, 2)], "all", KW_FULL[2:6] + KW_FULL[7:], True),
                  (3, [("bounded", 2, 3, 3)], "some", KW_SOME[:3], True),
                  (4, [("dense", 1, 1), ("bounded", 2, 2, 2)], "some", KW_SOME[:2], True)]
     else:
@@ -122,7 +121,7 @@ def evaluate(r, trains, edges, idx, name, kw, be, rank=()):
     r.evaluations += 1
     res = {}
     forms = [("indices", lambda: f(sts, indices=idx, **kwr)), ("sublist", lambda: f(sub, **kwr))]
-    if rank and rank[-1] == 0:
+    if rank and rank[-1] == 0 and rank[-2] % 3 == 0:
         # the selection given as a tuple / as a numpy array (first keyword setting only)
         forms.append(("indices as tuple", lambda: f(sts, indices=tuple(idx), **kwr)))
         forms.append(("indices as numpy array", lambda: f(sts, indices=np.array(idx), **kwr)))
